@@ -27,8 +27,9 @@ def model(ops):
     return common.run_parallel(common.lean_bin(), [o if gen.cap_dense(o) == o else "skip" for o in ops])
 
 
-def shifted_releases(cbs, horizon, rng, target, A):
-    """all callbacks start together at 0 with dense releases; the target's releases are delayed by A"""
+def shifted_releases(cbs, horizon, rng, target, A, phases=False):
+    """all callbacks start together at 0 with dense releases; the target's releases are delayed by A;
+    with `phases` every other callback gets its own random phase as well"""
     out = []
     for j, c in enumerate(cbs):
         if c["arr"] is None:
@@ -37,6 +38,9 @@ def shifted_releases(cbs, horizon, rng, target, A):
         rl = releases_for(c["arr"], horizon, rng, sync=True)
         if j == target:
             rl = [r + A for r in rl if r + A < horizon]
+        elif phases:
+            ph = rng.randint(0, 14)
+            rl = [r + ph for r in rl if r + ph < horizon]
         out.append(rl)
     return out
 
@@ -143,12 +147,12 @@ def falsify_C04(ctx):
         if mres.startswith("ok ") and int(mres.split()[1]) > R:
             # the model claims a larger bound than the real code: intensify the search
             dist["model_guided_searches"] = dist.get("model_guided_searches", 0) + 1
-            nreps = 400
+            nreps = 1200
         for rep in range(nreps):
             sigma = ros_sim.make_supply(sup, horizon, rng, mode=["random", "late", "worst", "random"][rep % 4])
             if rep >= 4:
                 tgt = target[1]
-                rels = shifted_releases(cbs, horizon - 200, rng, tgt, rng.randint(0, 25))
+                rels = shifted_releases(cbs, horizon - 200, rng, tgt, rng.randint(0, 25), phases=(rep % 2 == 1))
                 # reservation alignment: drop a random number of leading slots
                 cut = rng.randint(0, 12)
                 sigma = sigma[cut:] + [False] * cut
